@@ -116,7 +116,10 @@ def quote_value(v, q):
 
 
 def num_attr(rng, name=None):
-    return " %s%s=%s%s" % (name or rng.choice(ATTR_NAMES), rng.choice(["", "", " "]), rng.choice(["", "", " "]),
+    if name is None:
+        # the standard names, or a name the sources look up by name (READ_NAMES is set per run from an ast scan of the snapshot)
+        name = rng.choice(ATTR_NAMES if (not READ_NAMES or rng.random() < 0.5) else READ_NAMES)
+    return " %s%s=%s%s" % (name, rng.choice(["", "", " "]), rng.choice(["", "", " "]),
                            quote_value(num_value(rng), rng.randrange(3)))
 
 
@@ -153,11 +156,154 @@ def attr_case(rng, size):
     parts = []
     for _ in range(rng.randint(1, 4)):
         name, ctx = rng.choice(ATTR_CONTEXTS)
+        if rng.random() < 0.4:
+            # any element kind with any (read-by-name / standard) attribute name and an int-like / numeric-looking / mixed value
+            _kind, _oneline, tpl = rng.choice(attr_elements())
+            nm = rng.choice(readattr_names())
+            val = rng.choice(attr_values()) if rng.random() < 0.7 else num_value(rng)
+            parts.append(tpl % {"a": attr_string(nm, val, rng.randrange(4)), "n": nm, "v": val})
+            continue
         a = "".join(num_attr(rng, name if rng.random() < 0.5 else None) for _ in range(rng.choice([1, 1, 2, 3])))
         parts.append(ctx % {"a": a, "v": num_value(rng).strip()})
         if rng.random() < 0.4:
             parts.append(rng.choice(["\n", " ", "\n\n"]) + inline(rng, 1, size // 4))
     return rng.choice(["", "\n", "x\n"]).join(parts)
+
+
+# ---- attributes that the parser sources READ BY NAME (family `readattrs`).  attr_family above gives each construct ONE attribute name; code
+# further down the pipeline (tag extensions, TagParser, post-processors, tree cleaning) looks particular names up in the attribute dict of
+# particular node kinds and then uses the value as a str / dict, while parse_params has stored an int for every value int() accepts (also
+# for quoted ones: class="2024", " 5 ", "5_0", "٣").  READ_NAMES is filled by vt/props/c01.py on every run from an ast scan of the
+# snapshot (vt/gen/c01_attrnames.py): every key looked up by name anywhere in mwlib/parser, mwlib/extensions, mwlib/rendering.  The family
+# crosses every such name (and the standard HTML attribute names) with every value class below on EVERY element kind that carries
+# attributes, in 4 attribute forms (double / single / un-quoted, and as a property of style=) and 7 position classes.
+READ_NAMES = []
+
+# values int() accepts (parse_params stores an int) ...
+ATTR_VALUES_INT = ["5", "2024", "0", "007", "-1", "+5", " 5 ", "5_0", "٣", "１２", "9" * 25, "\t7\n"]
+# ... numeric-looking values it rejects, mixed values, and the two trivial ones
+ATTR_VALUES_STR = ["1.5", "1e3", "5%", "0x10", "²", "5px", "x5", "5 a", "a 5", "5;6", "5:6", "", "a"]
+
+
+def attr_values():
+    """int-like and other values interleaved (the forms and positions rotate with the document index)"""
+    out = []
+    for i in range(max(len(ATTR_VALUES_INT), len(ATTR_VALUES_STR))):
+        if i < len(ATTR_VALUES_INT):
+            out.append(ATTR_VALUES_INT[i])
+        if i < len(ATTR_VALUES_STR):
+            out.append(ATTR_VALUES_STR[i])
+    return out
+
+
+_COMPOSITE_PARTS = {"table", "caption", "tr", "td", "th", "ol", "ul", "li", "dl", "dt", "dd"}
+_VOID_TAGS = {"br", "hr", "references", "startfeed", "endfeed"}
+
+
+def attr_elements():
+    """(kind, fits on one line?, template): every element kind that carries attributes; %(a)s = attribute string with its leading space,
+    %(n)s / %(v)s = bare name and value"""
+    out = []
+    for t in HTML_TAGS:
+        if t in _COMPOSITE_PARTS:
+            continue
+        if t in _VOID_TAGS:
+            out.append((t, True, "a<%s%%(a)s/>b" % t))
+        else:
+            out.append((t, True, "<%s%%(a)s>x</%s>" % (t, t)))
+    out += [
+        ("table", True, "<table%(a)s><caption%(a)s>c</caption><tr%(a)s><td%(a)s>x</td><th%(a)s>y</th></tr></table>"),
+        ("ol", True, "<ol%(a)s><li%(a)s>x</li></ol>"), ("ul", True, "<ul%(a)s><li%(a)s>x</li></ul>"), ("li", True, "<li%(a)s>x</li>"),
+        ("dl", True, "<dl%(a)s><dt%(a)s>x</dt><dd%(a)s>y</dd></dl>"), ("td", True, "<table><tr><td%(a)s>x</td></tr></table>"),
+        ("div-unclosed", True, "<div%(a)s>x"), ("div-in-div", True, "<div%(a)s><div%(a)s>x</div></div>"), ("br-open", True, "a<br%(a)s>b"),
+        ("wikitable", False, "{|%(a)s\n|-\n| c\n|}"), ("wikirow", False, "{|\n|-%(a)s\n| c\n|}"), ("wikicell", False, "{|\n|-\n|%(a)s| c ||%(a)s| d\n|}"),
+        ("wikiheader", False, "{|\n|-\n!%(a)s| h !!%(a)s| i\n|}"), ("wikicaption", False, "{|\n|+%(a)s| cap\n|-\n| c\n|}"),
+        ("gallery", False, "<gallery%(a)s>\nImage:x.jpg|c\n</gallery>"), ("imagemap", False, "<imagemap%(a)s>\nImage:x.jpg|100px\nrect 0 0 1 1 [[A]]\n</imagemap>"),
+        ("poem", False, "<poem%(a)s>\nx\n</poem>"), ("timeline", False, "<timeline%(a)s>\nx\n</timeline>"),
+        ("pages", True, "<pages index=I%(a)s />"), ("pages-range", True, "<pages index=I from=1 to=2%(a)s />"), ("ref-empty", True, "x<ref%(a)s/>"),
+        ("tagfn-ref", True, "{{#tag:ref|x|%(n)s=%(v)s}}"), ("tagfn-poem", True, "{{#tag:poem|x|%(n)s=%(v)s}}"), ("tagfn-gallery", True, "{{#tag:gallery|Image:x.jpg|%(n)s=%(v)s}}"),
+        ("tagfn-source", True, "{{#tag:source|x|%(n)s=%(v)s}}"), ("tagfn-pages", True, "{{#tag:pages||index=I|%(n)s=%(v)s}}"),
+    ]
+    for t in EXT_TAGS:
+        if t not in ("gallery", "imagemap", "poem", "timeline", "pages"):
+            out.append((t, True, "x<%s%%(a)s>y</%s>" % (t, t)))
+    return out
+
+
+def attr_string(name, v, form):
+    """form 0 / 1 / 2: NAME="V" / NAME='V' / NAME=V; form 3: V as the value of the style property NAME"""
+    if form == 3:
+        return ' style="%s:%s"' % (name, v.replace('"', ""))
+    return " %s=%s" % (name, quote_value(v, form))
+
+
+# position classes: top level, nested in another element, table cell, list item, reference body, image caption, produced by a template
+ATTR_POSITIONS = ["top", "nested", "cell", "item", "ref", "caption", "template"]
+ATTR_POSITIONS_MULTILINE = ["top", "nested", "cell", "ref", "template"]
+ATTR_TEMPLATE_PAGE = "rattr"
+
+
+def readattr_doc(name, v, shift, elements=None):
+    """One document (raw, db): every element kind once, all with the attribute NAME=V; element number e gets form (e + shift) % 4 and
+    position class ((e + shift) // 4) % (number of classes), so that 28 consecutive shifts give every element every (form, position)."""
+    elements = elements or attr_elements()
+    groups = {p: [] for p in ATTR_POSITIONS}
+    for e, (_kind, oneline, tpl) in enumerate(elements):
+        k = e + shift
+        form = k % 4
+        pos_list = ATTR_POSITIONS if oneline else ATTR_POSITIONS_MULTILINE
+        pos = pos_list[(k // 4) % len(pos_list)]
+        val = "{{{1}}}" if pos == "template" else v
+        groups[pos].append(tpl % {"a": attr_string(name, val, form), "n": name, "v": val})
+    parts = []
+    if groups["top"]:
+        parts.append("\n".join(groups["top"]))
+    if groups["nested"]:
+        parts.append('<div class="outer"><span>\n%s\n</span></div>' % "\n".join(groups["nested"]))
+    if groups["cell"]:
+        parts.append("{|\n|-\n%s|}" % "".join("|\n%s\n" % g for g in groups["cell"]))
+    if groups["item"]:
+        parts.append("".join("%s %s\n" % ("*#:;"[i % 4], g) for i, g in enumerate(groups["item"])))
+    if groups["ref"]:
+        parts.append("".join("r<ref>\n%s\n</ref>\n" % g for g in groups["ref"]))
+    if groups["caption"]:
+        parts.append("".join("[[Image:x.jpg|thumb|%s]]\n" % g for g in groups["caption"]))
+    db = None
+    if groups["template"]:
+        db = dict(TEMPLATE_UNIVERSES[2])
+        db[ATTR_TEMPLATE_PAGE] = "\n".join(groups["template"]) + "\n"
+        parts.append("{{%s|%s}}" % (ATTR_TEMPLATE_PAGE, v))
+    return "\n\n".join(parts) + "\n", db
+
+
+def readattr_names():
+    """names read by name in the sources (READ_NAMES, set per run) + the standard attribute names, without duplicates, in a fixed order"""
+    out = []
+    for n in list(READ_NAMES) + ATTR_NAMES:
+        if n not in out:
+            out.append(n)
+    return out
+
+
+def readattr_family(tier):
+    """(raw, db, description).  quick: one document per (name, value), the shift advancing with the document number (so every name meets
+    every element kind with every value, and over the values of one name every element meets a spread of forms and positions); thorough:
+    additionally all 28 (form, position) shifts for the int-like values, 4 for the others."""
+    out = []
+    elements = attr_elements()
+    values = attr_values()
+    d = 0
+    for name in readattr_names():
+        for v in values:
+            if tier == "quick":
+                shifts = [d]
+            else:
+                shifts = range(28) if v in ATTR_VALUES_INT else range(0, 28, 7)
+            for s in shifts:
+                raw, db = readattr_doc(name, v, s, elements)
+                out.append((raw, db, "%s=%r shift %d" % (name, v, s)))
+            d += 5          # coprime to 4 and 7: forms and positions both advance
+    return out
 
 
 # ---- apostrophe runs: compute_path searches per line; its state space grows with the number of runs on ONE line
